@@ -105,6 +105,7 @@ CATALOG: List[Cfg] = [
     # ---------------- Game2048
     _c("game2048-2x2", "game_2048", "Game2048(2)", depth=8, keys_quick=2, keys_thorough=6),
     _c("game2048-3x3", "game_2048", "Game2048(3)", depth=5, keys_quick=1, keys_thorough=3, kind="awkward"),
+    _c("game2048-5x5", "game_2048", "Game2048(5)", kind="awkward", depth=3, keys_quick=1, keys_thorough=2, quick=False),
     _c("game2048-default", "game_2048", "Game2048()", kind="default", depth=4, keys_quick=1, keys_thorough=2),
     # ---------------- GraphColoring
     _c("graphcol-4", "graph_coloring", "GraphColoring(G.graph_coloring.RandomGenerator(4, 0.5))",
@@ -115,6 +116,10 @@ CATALOG: List[Cfg] = [
        keys_quick=3, keys_thorough=8, horizon="5"),
     _c("graphcol-5-dense", "graph_coloring", "GraphColoring(G.graph_coloring.RandomGenerator(5, 0.95))",
        kind="awkward", keys_quick=1, keys_thorough=4, horizon="5", quick=False),
+    _c("graphcol-4-sparse", "graph_coloring", "GraphColoring(G.graph_coloring.RandomGenerator(4, 0.05))",
+       kind="awkward", keys_quick=2, keys_thorough=4, horizon="4"),
+    _c("graphcol-3-dense", "graph_coloring", "GraphColoring(G.graph_coloring.RandomGenerator(3, 0.99))",
+       kind="awkward", keys_quick=2, keys_thorough=4, horizon="3"),
     _c("graphcol-default", "graph_coloring", "GraphColoring()", kind="default", depth=3,
        keys_quick=1, keys_thorough=2, horizon="20"),
     # ---------------- Minesweeper
@@ -126,6 +131,13 @@ CATALOG: List[Cfg] = [
        kind="awkward", keys_quick=1, keys_thorough=4, horizon="9", max_states_quick=6000),
     _c("mines-4x3-11", "minesweeper", "Minesweeper(G.minesweeper.UniformSamplingGenerator(4, 3, 11))",
        kind="awkward", keys_quick=2, keys_thorough=6, horizon="1"),
+    _c("mines-3x3-2-rewards", "minesweeper", "Minesweeper(G.minesweeper.UniformSamplingGenerator(3, 3, 2), "
+       "reward_function=R.minesweeper.DefaultRewardFn(2.0, -1.0, -0.5))", kind="awkward", keys_quick=1, keys_thorough=3,
+       horizon="7"),
+    _c("mines-3x3-0", "minesweeper", "Minesweeper(G.minesweeper.UniformSamplingGenerator(3, 3, 0))", kind="awkward",
+       keys_quick=1, keys_thorough=1, horizon="9", max_states_quick=4000, quick=False),
+    _c("mines-2x2-3", "minesweeper", "Minesweeper(G.minesweeper.UniformSamplingGenerator(2, 2, 3))", kind="awkward",
+       keys_quick=3, keys_thorough=6, horizon="1"),
     _c("mines-default", "minesweeper", "Minesweeper()", kind="default", depth=2, keys_quick=1,
        keys_thorough=2, horizon="90"),
     # ---------------- RubiksCube
@@ -135,6 +147,8 @@ CATALOG: List[Cfg] = [
        kind="awkward", keys_quick=1, keys_thorough=3, time_limit=2),
     _c("rubik-2-T1", "rubiks_cube", "RubiksCube(G.rubiks_cube.ScramblingGenerator(2, 0), time_limit=1)",
        kind="awkward", keys_quick=1, keys_thorough=2, time_limit=1),
+    _c("rubik-4-T2", "rubiks_cube", "RubiksCube(G.rubiks_cube.ScramblingGenerator(4, 3), time_limit=2)",
+       kind="awkward", keys_quick=1, keys_thorough=2, time_limit=2, quick=False),
     _c("rubik-default", "rubiks_cube", "RubiksCube()", kind="default", depth=2, keys_quick=1,
        keys_thorough=2, time_limit=200),
     # ---------------- SlidingTilePuzzle
@@ -148,11 +162,27 @@ CATALOG: List[Cfg] = [
        "SlidingTilePuzzle(G.sliding_tile_puzzle.RandomWalkGenerator(3, 2), "
        "reward_fn=R.sliding_tile_puzzle.SparseRewardFn(), time_limit=3)",
        kind="awkward", keys_quick=2, keys_thorough=6, time_limit=3),
+    _c("slide-2-solved-T4", "sliding_tile_puzzle",
+       "SlidingTilePuzzle(G.sliding_tile_puzzle.RandomWalkGenerator(2, 0), time_limit=4)", kind="awkward",
+       keys_quick=1, keys_thorough=1, time_limit=4),
+    _c("slide-2-sparse-T6", "sliding_tile_puzzle",
+       "SlidingTilePuzzle(G.sliding_tile_puzzle.RandomWalkGenerator(2, 3), "
+       "reward_fn=R.sliding_tile_puzzle.SparseRewardFn(), time_limit=6)", kind="awkward", keys_quick=6,
+       keys_thorough=12, time_limit=6),
+    _c("slide-3-T1", "sliding_tile_puzzle",
+       "SlidingTilePuzzle(G.sliding_tile_puzzle.RandomWalkGenerator(3, 5), time_limit=1)", kind="awkward",
+       keys_quick=2, keys_thorough=4, time_limit=1),
     _c("slide-default", "sliding_tile_puzzle", "SlidingTilePuzzle()", kind="default", depth=4,
        keys_quick=1, keys_thorough=2, time_limit=500),
     # ---------------- Sudoku
     _c("sudoku-near", "sudoku", "Sudoku(INJ.sudoku_near_complete(4))", keys_quick=2, keys_thorough=6,
        horizon="4", max_states_quick=4000),
+    _c("sudoku-near1", "sudoku", "Sudoku(INJ.sudoku_near_complete(1))", keys_quick=4, keys_thorough=8, horizon="1",
+       max_states_quick=6000),
+    _c("sudoku-near2", "sudoku", "Sudoku(INJ.sudoku_near_complete(2))", keys_quick=3, keys_thorough=8, horizon="2",
+       max_states_quick=8000),
+    _c("sudoku-deadend", "sudoku", "Sudoku(INJ.sudoku_dead_ends())", keys_quick=6, keys_thorough=12, horizon="4",
+       kind="awkward", max_states_quick=8000),
     _c("sudoku-default", "sudoku", "Sudoku()", kind="default", depth=1, keys_quick=1, keys_thorough=1,
        horizon="81"),
     # ---------------- BinPack
@@ -218,6 +248,8 @@ CATALOG: List[Cfg] = [
        keys_quick=2, keys_thorough=6, time_limit=5),
     _c("connector-3x2-T3", "connector", "Connector(G.connector.UniformRandomGenerator(3, 2), time_limit=3)",
        keys_quick=3, keys_thorough=10, time_limit=3),
+    _c("connector-3x3-T4", "connector", "Connector(G.connector.UniformRandomGenerator(3, 3), time_limit=4)",
+       keys_quick=2, keys_thorough=4, time_limit=4),
     _c("connector-rw5x3-T2", "connector", "Connector(G.connector.RandomWalkGenerator(5, 3), time_limit=2)",
        kind="awkward", keys_quick=1, keys_thorough=4, time_limit=2),
     _c("connector-default", "connector", "Connector()", kind="default", depth=1, keys_quick=1,
@@ -237,6 +269,8 @@ CATALOG: List[Cfg] = [
     _c("lbf-6x3x2-grid-T2", "lbf", "LevelBasedForaging(G.lbf.RandomGenerator(6, 3, 2, fov=2, "
        "force_coop=True), grid_observation=True, time_limit=2)", kind="awkward", keys_quick=1,
        keys_thorough=3, time_limit=2),
+    _c("lbf-5-grid-fov2-T3", "lbf", "LevelBasedForaging(G.lbf.RandomGenerator(5, 2, 1, fov=2), "
+       "grid_observation=True, time_limit=3)", kind="awkward", keys_quick=1, keys_thorough=3, time_limit=3),
     _c("lbf-5-nonorm-pen-T2", "lbf", "LevelBasedForaging(G.lbf.RandomGenerator(5, 2, 1, fov=5), "
        "normalize_reward=False, penalty=1.0, time_limit=2)", kind="awkward", keys_quick=1,
        keys_thorough=3, time_limit=2),
@@ -258,6 +292,8 @@ CATALOG: List[Cfg] = [
        keys_quick=1, keys_thorough=3, time_limit=3, max_states_quick=3000),
     _c("mmst-12-T1", "mmst", "MMST(G.mmst.SplitRandomGenerator(12, 18, 4, 2, 3, 1), time_limit=1)",
        kind="awkward", keys_quick=2, keys_thorough=4, time_limit=1),
+    _c("mmst-12-T6", "mmst", "MMST(G.mmst.SplitRandomGenerator(12, 18, 4, 2, 3, 6), time_limit=6)",
+       kind="awkward", keys_quick=1, keys_thorough=2, time_limit=6, quick=False),
     _c("mmst-default", "mmst", "MMST()", kind="default", depth=1, keys_quick=1, keys_thorough=1,
        time_limit=70, quick=False),
     # ---------------- MultiCVRP
@@ -274,7 +310,7 @@ CATALOG: List[Cfg] = [
     # ---------------- RobotWarehouse
     _c("rware-tiny-T3", "robot_warehouse",
        f"RobotWarehouse(G.robot_warehouse.RandomGenerator({RW_TINY}), time_limit=3)",
-       keys_quick=1, keys_thorough=3, time_limit=3),
+       keys_quick=2, keys_thorough=10, time_limit=3),
     _c("rware-awk-T2", "robot_warehouse",
        f"RobotWarehouse(G.robot_warehouse.RandomGenerator({RW_AWK}), time_limit=2)",
        kind="awkward", keys_quick=1, keys_thorough=2, time_limit=2, quick=False),
